@@ -8,6 +8,7 @@ CONSTANTS
   GapToks = {"emptyrow"}
   Ignorables = {"sheetViews", "sheetPr", "cols"}
   MaxGaps = 1
+  LaxRows = FALSE
   PkgVary = "none"
 CONSTRAINT GapBound
 INVARIANTS PrefixOK Sorted Refines Dump
